@@ -74,6 +74,11 @@ func vless(a, b fval) bool {
 	}
 	switch a.kind {
 	case kNumber:
+		if a.num != a.num || b.num != b.num {
+			// a number that is not a number satisfies no range and no equality with a real
+			// number: it sorts before all of them and equals only itself
+			return a.num != a.num && b.num == b.num
+		}
 		return a.num < b.num
 	case kString:
 		return lower(a.str) < lower(b.str)
@@ -155,6 +160,9 @@ func genFieldDataset(r *rand.Rand, n int) *fdataset {
 		cmd := []string{"SET", "kf", o.id}
 		if r.Intn(10) < 7 {
 			v := mixedText(r)
+			if r.Intn(14) == 0 {
+				v = pick(r, []string{"nan", "NaN"})
+			}
 			if v != "0" {
 				o.fields["f"] = v
 			}
@@ -162,6 +170,9 @@ func genFieldDataset(r *rand.Rand, n int) *fdataset {
 		}
 		if r.Intn(2) == 0 {
 			v := pick(r, numTexts)
+			if r.Intn(14) == 0 {
+				v = "nan"
+			}
 			o.fields["n"] = v
 			cmd = append(cmd, "FIELD", "n", v)
 		}
